@@ -11,6 +11,9 @@ import (
 	"github.com/elastos/Elastos.ELA/blockchain"
 	"github.com/elastos/Elastos.ELA/common"
 	"github.com/elastos/Elastos.ELA/core/types"
+	common2 "github.com/elastos/Elastos.ELA/core/types/common"
+	"github.com/elastos/Elastos.ELA/core/types/payload"
+	crstate "github.com/elastos/Elastos.ELA/cr/state"
 	"verif/harness/internal/rep"
 )
 
@@ -41,6 +44,8 @@ type runner struct {
 	base      uint32 // lowest height A can be rolled back to (height of the last restore)
 	diffKey   string
 	quiet     bool // build and process only (used by the checkpoint mode)
+	kd        map[int]bool // CRs whose deposit the spec's named deviation ReleasedTwice has released a second time
+	kdSeen    map[int]bool // ... already reported for this behaviour
 }
 
 const maxSession = 3
@@ -88,6 +93,10 @@ func (r *runner) replay(b rep.Behaviour) {
 	for i, st := range b {
 		r.upto = i
 		r.st.steps++
+		r.kd = map[int]bool{}
+		for _, c := range ints(st["kd"]) {
+			r.kd[c] = true
+		}
 		switch st.Act() {
 		case "Start":
 			scn := rep.Str(st.Args(), "scenario")
@@ -208,7 +217,26 @@ func (r *runner) applyBlock(abs []Tx, ok []bool, explored bool) {
 				realPaid[r.tr.orderProp[hsh]] += oi.Amount
 			}
 		}
+		if bt.abs.K == "Withdraw" && bt.tx.PayloadVersion() == payload.CRCProposalWithdrawDefault {
+			// payload version 0 pays at once: what leaves the expenses address
+			var spent, back common.Fixed64
+			for _, o := range bt.refs {
+				spent += o.Value
+			}
+			for _, o := range bt.tx.Outputs() {
+				if o.ProgramHash.IsEqual(r.env.expenses) {
+					back += o.Value
+				}
+			}
+			realPaid[bt.abs.P] += spent - back
+		}
 	}
+	r.env.applyLedger(led, built)
+	var onAssets common.Fixed64
+	for _, u := range led.assets {
+		onAssets += u.val
+	}
+	r.env.assetsOf[blk] = onAssets
 	if p := r.A.Process(blk); p != nil {
 		r.violation("C22:panic:ProcessBlock", fmt.Sprintf("ProcessBlock(%d) panicked: %v", h, p), map[string]interface{}{"txs": abs})
 		return
@@ -217,61 +245,107 @@ func (r *runner) applyBlock(abs []Tx, ok []bool, explored bool) {
 		r.violation("C22:panic:ProcessBlock", fmt.Sprintf("ProcessBlock(%d) panicked on the direct instance: %v", h, p), nil)
 		return
 	}
-	r.env.applyLedger(led, built)
 	r.levels = append(r.levels, &level{h: h, block: blk, led: led, realPaid: realPaid, canonB: r.B.Canon()})
 	r.compareAB(fmt.Sprintf("after block %d", h))
+	if r.failed {
+		return
+	}
+	// C28, CR side: the deposit balance invariant on the real committee after every block
+	r.checkDeposits(fmt.Sprintf("after block %d", h))
 	if r.failed || !explored || r.sweep == 0 {
 		return
 	}
 	// rollback sweep: back to earlier heights of the current chain and forward again
-	for _, t := range r.sweepTargets(h) {
-		if t < r.base || (t == r.base && r.base > 0 && h == r.base) {
+	targets, bounds := r.sweepTargets(h)
+	for _, t := range targets {
+		if !r.sweepTo(h, []uint32{t}) {
+			return
+		}
+	}
+	// the bounds of the rollback path in one descent: CRVotingStartHeight+1, CRVotingStartHeight (the lowest height
+	// Committee.RollbackTo serves; its block is part of the state), CRVotingStartHeight-1 (Checkpoint.OnRollbackTo
+	// resets the committee), a comparison at each landing, then every block again
+	if len(bounds) > 0 {
+		r.sweepTo(h, bounds)
+	}
+}
+
+// sweepTo rolls the committee back from h to the (descending) heights ts, one
+// after the other, comparing at each landing, processes the blocks up to h again
+// and compares once more.
+func (r *runner) sweepTo(h uint32, ts []uint32) bool {
+	cur := h
+	for _, t := range ts {
+		if t >= cur || t < r.base || (t == r.base && r.base > 0 && h == r.base) {
 			continue
 		}
 		r.st.sweeps++
-		if p := r.A.Rollback(t); p != nil {
-			r.violation("C22:panic:RollbackTo", fmt.Sprintf("RollbackTo(%d) from %d: %v", t, h, p), nil)
-			return
+		if p := r.A.Rollback(t, (h+t)%2 == 0); p != nil {
+			r.rollbackFailed(p, t, cur)
+			return false
 		}
 		if os.Getenv("CRSTATE_SELFTEST") == "perturb" && !r.perturbed {
 			// binding self-test: a rollback that leaves one field behind must be noticed
 			r.perturbed = true
 			r.A.comm.KeyFrame.CirculationAmount++
 		}
-		r.compareTo(r.levels[t].canonB, fmt.Sprintf("sweep: rolled back from %d to %d", h, t), t)
+		r.compareTo(r.levels[t].canonB, fmt.Sprintf("sweep: rolled back from %d to %d", cur, t), t, t)
 		if r.failed {
-			return
+			return false
 		}
-		for x := t + 1; x <= h; x++ {
-			if p := r.A.Process(r.levels[x].block); p != nil {
-				r.violation("C22:panic:ProcessBlock", fmt.Sprintf("re-processing block %d after RollbackTo(%d): %v", x, t, p), nil)
-				return
-			}
-		}
-		r.compareTo(r.levels[h].canonB, fmt.Sprintf("sweep: rolled back from %d to %d and re-processed", h, t), t)
-		if r.failed {
-			return
+		cur = t
+	}
+	if cur == h {
+		return true
+	}
+	for x := cur + 1; x <= h; x++ {
+		if p := r.A.Process(r.levels[x].block); p != nil {
+			r.violation("C22:panic:ProcessBlock", fmt.Sprintf("re-processing block %d after the rollback to %d: %v", x, cur, p), nil)
+			return false
 		}
 	}
+	r.compareTo(r.levels[h].canonB, fmt.Sprintf("sweep: rolled back from %d to %d and re-processed", h, cur), h, cur)
+	return !r.failed
 }
 
-func (r *runner) sweepTargets(h uint32) []uint32 {
-	var ts []uint32
-	lo := uint32(1)
+// sweepTargets: the heights the committee is rolled back to (and forward again)
+// after block h, and the bounds of the rollback path visited in one descent (at
+// low heights and at the end of every behaviour).
+func (r *runner) sweepTargets(h uint32) (ts, bounds []uint32) {
+	seen := map[uint32]bool{}
+	add := func(t uint32) {
+		if t < h && !seen[t] {
+			seen[t] = true
+			ts = append(ts, t)
+		}
+	}
+	vs := uint32(r.env.cfg.VotingStart)
+	last := r.upto == len(r.beh)-1
 	switch r.sweep {
 	case 1: // the three preceding heights and one deep one
 		for t := h - 1; t >= 1 && t+3 >= h; t-- {
-			ts = append(ts, t)
+			add(t)
 		}
 		if h > 8 {
-			ts = append(ts, h/2)
+			add(h / 2)
+		}
+		if h > vs+4 && !last {
+			return ts, nil
 		}
 	default: // every height of the chain
-		for t := h - 1; t >= lo; t-- {
-			ts = append(ts, t)
+		for t := h - 1; t >= 1; t-- {
+			add(t)
 		}
 	}
-	return ts
+	for _, t := range []uint32{vs + 1, vs} {
+		if t < h {
+			bounds = append(bounds, t)
+		}
+	}
+	if vs > 0 && vs-1 < h {
+		bounds = append(bounds, vs-1)
+	}
+	return ts, bounds
 }
 
 // checkpointRestore replaces A by a committee restored from A's checkpoint (the
@@ -300,11 +374,11 @@ func (r *runner) checkpointRestore() {
 	r.compareAB("after checkpoint / restore")
 }
 
-// rollback is a RollbackTo step of the behaviour.
+// rollback is a Rollback step of the behaviour.
 func (r *runner) rollback(t uint32, why string) {
 	from := r.A.height
-	if p := r.A.Rollback(t); p != nil {
-		r.violation("C22:panic:RollbackTo", fmt.Sprintf("RollbackTo(%d) from %d: %v", t, from, p), nil)
+	if p := r.A.Rollback(t, (from+t)%2 == 0); p != nil {
+		r.rollbackFailed(p, t, from)
 		return
 	}
 	r.levels = r.levels[:t+1]
@@ -316,12 +390,68 @@ func (r *runner) rollback(t uint32, why string) {
 			return
 		}
 	}
-	r.compareTo(r.levels[t].canonB, fmt.Sprintf("%s from %d to %d", why, from, t), t)
+	r.compareTo(r.levels[t].canonB, fmt.Sprintf("%s from %d to %d", why, from, t), t, t)
+	if r.failed && !r.quiet {
+		// what the difference means for the budgets (C29) and the deposits (C28) is reported as well
+		for _, f := range r.A.checkC29(r.tr, r.top().realPaid) {
+			r.violation(f.key, fmt.Sprintf("after step %d (%s): %s", r.upto, why, f.what), nil)
+		}
+		r.checkDeposits(fmt.Sprintf("after the rollback from %d to %d", from, t))
+	}
 }
 
-func (r *runner) compareAB(when string) { r.compareTo(r.top().canonB, when, r.A.height) }
+// rollbackFailed reports a rollback that panicked, returned an error or did not return.
+func (r *runner) rollbackFailed(p interface{}, t, from uint32) {
+	if h, ok := p.(hung); ok {
+		r.violation("C22:hang:RollbackTo", h.what+" (checkpoint.Manager.OnRollbackTo)", nil)
+		onHang()
+		return
+	}
+	r.violation("C22:panic:RollbackTo", fmt.Sprintf("rollback to %d from %d: %v", t, from, p), nil)
+}
 
-func (r *runner) compareTo(want flat, when string, t uint32) {
+// checkDeposits evaluates CRDepositBalance of CR.tla on the real committee.  The
+// named deviation of the spec (ReleasedTwice) is reported once per CR and
+// behaviour and the replay goes on (the spec models what the code does next).
+func (r *runner) checkDeposits(when string) {
+	if r.quiet {
+		return
+	}
+	failed := r.failed
+	if os.Getenv("CRSTATE_SELFTEST") == "deposit" && !r.perturbed {
+		// binding self-test: a deposit released once too often must be noticed
+		for _, di := range r.A.comm.GetState().DepositInfo {
+			if di.DepositAmount >= crstate.MinDepositAmount {
+				r.perturbed = true
+				di.DepositAmount -= 2 * crstate.MinDepositAmount
+				defer func() { di.DepositAmount += 2 * crstate.MinDepositAmount }()
+				break
+			}
+		}
+	}
+	for _, f := range r.A.checkC28(r.top().led, r.kd) {
+		if f.known {
+			if r.kdSeen == nil {
+				r.kdSeen = map[int]bool{}
+			}
+			if r.kdSeen[f.cr] {
+				continue
+			}
+			r.kdSeen[f.cr] = true
+			r.violation(f.key, when+": "+f.what, nil)
+			r.failed = failed
+			continue
+		}
+		r.violation(f.key, when+": "+f.what, nil)
+		failed = true
+	}
+}
+
+func (r *runner) compareAB(when string) { r.compareTo(r.top().canonB, when, r.A.height, r.A.height) }
+
+// compareTo: the committee under test against the dump of the direct one after
+// block upto; target is the height the last rollback went to (= upto when none).
+func (r *runner) compareTo(want flat, when string, upto, target uint32) {
 	r.st.compares++
 	got := r.A.Canon()
 	fields, entries := diffFlat(got, want)
@@ -331,9 +461,15 @@ func (r *runner) compareTo(want flat, when string, t uint32) {
 	if len(entries) > 12 {
 		entries = entries[:12]
 	}
-	r.violation(r.diffKey+fields[0],
+	key := r.diffKey
+	if key == "C22:rollback-diff:" && target < uint32(r.env.cfg.VotingStart) {
+		// the rollback went below CRVotingStartHeight: Checkpoint.OnRollbackTo reset the committee (another code path
+		// than Committee.RollbackTo; what it leaves behind shows here or after the blocks are processed again)
+		key = "C22:rollback-reset-diff:"
+	}
+	r.violation(key+fields[0],
 		fmt.Sprintf("%s: the committee that went through the rollback(s) differs from the one that processed only the blocks up to %d in %s",
-			when, t, strings.Join(fields, ", ")),
+			when, upto, strings.Join(fields, ", ")),
 		map[string]interface{}{"diff(rolled-back,direct)": entries})
 }
 
@@ -351,6 +487,14 @@ func (r *runner) afterStep(st rep.Step) {
 	}
 	// the budget invariants first: a broken invariant is a verdict about the code,
 	// a difference to the spec alone is not
+	if os.Getenv("CRSTATE_SELFTEST") == "payable" && !r.perturbed && r.upto > 0 {
+		// binding self-test: a withdraw order nobody issued must be noticed
+		r.perturbed = true
+		bogus := common.Uint256{0xbe, 0xef}
+		info := r.A.comm.GetProposalManager().WithdrawableTxInfo
+		info[bogus] = common2.OutputInfo{Amount: ELA}
+		defer delete(info, bogus)
+	}
 	for _, f := range r.A.checkC29(r.tr, r.top().realPaid) {
 		r.violation(f.key, fmt.Sprintf("after step %d (%s): %s", r.upto, st.Act(), f.what), nil)
 	}
@@ -436,6 +580,17 @@ func (r *runner) probe(vd map[string]interface{}) {
 			}
 		}
 		if av > 0 {
+			// the payload version the height does not admit (HeightVersionCheck)
+			if bt, err := r.env.Build(r.A, r.top().led, Tx{K: "Withdraw", P: p, O: owner, N: av, X: "otherVersion"}, h); err == nil {
+				cerr, _ := r.A.Check(bt, h, 0)
+				r.st.probes++
+				if cerr == nil {
+					r.violation("C29:withdraw-version-accepted", fmt.Sprintf("height %d (CRCProposalWithdrawPayloadV1Height %d): a withdrawal "+
+						"with payload version %d passes the height / version check and the withdraw checker", h,
+						r.env.cfg.WithdrawV1Height, bt.tx.PayloadVersion()), nil)
+					return
+				}
+			}
 			// two withdrawals of the same stages in one block
 			r.st.doubleProbes++
 			b1, _ := r.env.Build(r.A, r.top().led, Tx{K: "Withdraw", P: p, O: owner, N: av}, h)
